@@ -32,3 +32,18 @@ Theorem C03_frame_during : forall c k s0 named reset w o, enc_wf (c_enc c) -> al
 Proof. intros c k s0 named reset w o EW AW NN I Wf. pose proof (step_inv c EW AW k NN s0 named reset w o I Wf) as H.
   destruct (step c reset k w o); auto; destruct H; auto. Qed.
 Print Assumptions C03_frame_during.
+
+(* the same at the level of the observable trace: in any run (any script, kernel, exit kind, either restoration order) every
+   WRITE event lies, byte for byte, inside an entry slot the script named or inside a mapping the kernel had returned to the
+   injector EARLIER in the trace *)
+From Inj Require Import TraceFoot Amd64Install.
+Theorem C03_trace_write_footprint : forall c reset lifo k named ls,
+  enc_wf (c_enc c) -> alloc_wf (c_alloc c) -> alloc_nonnull (c_alloc c) k -> Forall (script_wf c named) ls ->
+  forall s0 ctr, wfoot named [] (o_trace s0) -> let '(s', _, _) := lifetimes c reset lifo k s0 ctr ls in wfoot named [] (o_trace s').
+Proof. exact lifetimes_trace_footprint. Qed.
+Print Assumptions C03_trace_write_footprint.
+Example C03_replay_rejects_stray_and_early_writes :
+  ~ wfoot (fun x => 100 <= x < 112) [] [EWrite 100 [1;2]; EMmap 0 12 (Some 4096); EWrite 4096 [1]; EWrite 200 [1]] /\
+  ~ wfoot (fun _ => False) [] [EWrite 4096 [1]; EMmap 0 12 (Some 4096)] /\ wfoot (fun _ => False) [] (o_trace (os0 (fun _ => 0))).
+Proof. exact (conj stray_write_rejected (conj late_mapping_rejected I)). Qed.
+Print Assumptions C03_replay_rejects_stray_and_early_writes.
